@@ -146,17 +146,25 @@ def _stmt_or_block(src, i):
     return parse_block(src[i:j + 1]), j + 1
 
 
+def _one_line(t):
+    """a statement on one line whatever the formatter did with it: single spaces, none inside parentheses' edges"""
+    t = re.sub(r"\s+", " ", t).strip()
+    t = re.sub(r"\(\s+", "(", t)
+    t = re.sub(r"\s+\)", ")", t)
+    return t
+
+
 def flat_calls(nodes):
     """every simple statement of a tree, in source order"""
     out = []
     for nd in nodes:
         if nd[0] == "stmt":
-            out.append(nd[1])
+            out.append(_one_line(nd[1]))
         elif nd[0] == "if":
-            out.append("if (" + nd[1] + ")")
+            out.append("if (" + _one_line(nd[1]) + ")")
             out += flat_calls(nd[2]) + flat_calls(nd[3])
         else:
-            out.append(nd[1])
+            out.append(_one_line(nd[1]))
             out += flat_calls(nd[2])
     return out
 
